@@ -784,18 +784,39 @@ theorem eatLoop_gen (cfg : Cfg) (d : VecSt) (hg : d.Good) (hl : d.live = true) (
 /-- `n` identities handed out -/
 def World.bumpN (w : World) (n : Nat) : World := { w with created := w.created + n }
 
+theorem Plains.append {vs ws : List Val} {is js : List Nat} (h1 : Plains vs is) (h2 : Plains ws js) :
+    Plains (vs ++ ws) (is ++ js) := by
+  induction h1 with
+  | nil => simpa using h2
+  | cons x id vs ids hx _ ih => exact Plains.cons x id _ _ hx ih
+
+theorem onUnwind_of_ok {α} (m : WM α) (c : WM Unit) (w w' : World) (a : α) (h : m w = (w', .ok a)) :
+    WM.onUnwind m c w = (w', .ok a) := by
+  simp only [WM.onUnwind, h]
+
+theorem mkValsFrom_plains (cfg : Cfg) (repl : List Src) (hs : ∀ r ∈ repl, r.Plain) :
+    ∀ (acc : List Val) (ids0 : List Nat) (w : World), Plains acc ids0 →
+    ∃ vals, Plains vals (ids0 ++ List.range' w.created repl.length) ∧
+      mkValsFrom cfg acc repl w = (w.bumpN repl.length, .ok vals) := by
+  induction repl with
+  | nil =>
+    intro acc ids0 w hacc
+    exact ⟨acc, by simpa using hacc, by simp [mkValsFrom, World.bumpN]⟩
+  | cons r rs ih =>
+    intro acc ids0 w hacc
+    obtain ⟨x, hx, hmk⟩ := mkVal_plain cfg r (hs r List.mem_cons_self) w
+    have hacc' : Plains (acc ++ [x]) (ids0 ++ [w.created]) := hacc.append (Plains.cons x w.created [] [] hx Plains.nil)
+    obtain ⟨vs, hvs, hmks⟩ := ih (fun q hq => hs q (List.mem_cons_of_mem _ hq)) (acc ++ [x]) (ids0 ++ [w.created]) w.bump hacc'
+    refine ⟨vs, ?_, ?_⟩
+    · rw [List.length_cons, List.range'_succ]
+      simpa [World.bump, List.append_assoc] using hvs
+    · simp only [mkValsFrom, WM.bind_apply, onUnwind_of_ok _ _ _ _ _ hmk, hmks]
+      simp [World.bumpN, World.bump, Nat.add_assoc, Nat.add_comm 1]
+
 theorem mkVals_plains (cfg : Cfg) (repl : List Src) (hs : ∀ r ∈ repl, r.Plain) (w : World) :
     ∃ vals, Plains vals (List.range' w.created repl.length) ∧ mkVals cfg repl w = (w.bumpN repl.length, .ok vals) := by
-  induction repl generalizing w with
-  | nil => exact ⟨[], Plains.nil, rfl⟩
-  | cons r rs ih =>
-    obtain ⟨x, hx, hmk⟩ := mkVal_plain cfg r (hs r List.mem_cons_self) w
-    obtain ⟨vs, hvs, hmks⟩ := ih (fun q hq => hs q (List.mem_cons_of_mem _ hq)) w.bump
-    refine ⟨x :: vs, ?_, ?_⟩
-    · rw [List.length_cons, List.range'_succ]
-      exact Plains.cons x w.created vs _ hx hvs
-    · simp only [mkVals, WM.bind_apply, hmk, hmks, WM.pure_apply]
-      simp [World.bumpN, World.bump, Nat.add_assoc, Nat.add_comm 1]
+  obtain ⟨vals, hp, hmk⟩ := mkValsFrom_plains cfg repl hs [] [] w Plains.nil
+  exact ⟨vals, by simpa using hp, hmk⟩
 
 theorem leakRepl_plains (vals : List Val) (L : List Nat) (hp : Plains vals L) (w : World) :
     ∃ pl : List Nat, Leq pl L ∧ leakRepl vals w = ({ w with pendingRaw := pl ++ w.pendingRaw }, .ok ()) := by
